@@ -305,6 +305,28 @@ def gen_two_hap(rng, t, unprefixed=False, primary=None):
             b["row_tags"] = {0: [tagcase[other]]}
             b["rows"][0]["hap"] = other
             labels.add("tag:two-pieces-of-one-scaffold-set-aside-in-different-haplotypes")
+    if not primary and rng.random() < 0.5:
+        # Pretext order is arbitrary: unplaced scaffolds may come before, between and after the chromosome
+        # groups (the painted scaffolds of one group stay next to each other, as the grouping rule requires)
+        blocks, cur = [], None
+        for d in design:
+            g = d.get("group") if d["painted"] else None
+            if d["painted"] and cur is not None and cur[0] == g:
+                cur[1].append(d)
+            else:
+                cur = (g if d["painted"] else object(), [d])
+                blocks.append(cur)
+        rng.shuffle(blocks)
+        design = [d for _, b in blocks for d in b]
+        labels.add("tag:two-haplotypes-shuffled-order")
+        if tagcase != (H1, H2) and rng.random() < 0.6:
+            # an untagged, unplaced scaffold (haplotype known from its name only, spelled as in the name) is the
+            # very first Pretext scaffold, before any scaffold that carries the haplotype as a tag (spelled otherwise)
+            un = [d for d in design if not d["painted"] and not d.get("row_tags") and d["rows"][0]["kind"] == "unpainted" and d["rows"][0]["s"] not in extra_names]
+            if un:
+                first = rng.choice(un)
+                design = [first] + [d for d in design if d is not first]
+                labels.add("tag:name-spelled-haplotype-seen-before-its-tag")
     pt = _emit(rng, design, False)
     all_pieces = [pc for d in design for pc in d["rows"]]
     for pc in all_pieces:
